@@ -173,8 +173,25 @@ fn probe(world: &crate::hist::World, max_ann: Option<u32>, api: bool, sync: bool
 }
 
 fn run_direct(case: &Direct14) -> Outcome {
-    use crate::hist::{Cfg, StepInfo, World};
     let mut out = Outcome::default();
+    run_direct_with(case, true, &mut out, &mut |_, _, _, _| {});
+    out
+}
+
+/// The announced headers the canister must hold: hash -> (height, model block id).
+pub type Announced = std::collections::BTreeMap<crate::model::H32, (u32, usize)>;
+
+/// The direct-driver scenario (also used by C20 for the bookkeeping of announced headers):
+/// `after_event` sees the world and the model of the announced headers after every event.
+pub fn run_direct_with(
+    case: &Direct14,
+    probes: bool,
+    out_ref: &mut Outcome,
+    after_event: &mut dyn FnMut(&mut crate::hist::World, &Announced, usize, &mut Outcome),
+) {
+    use crate::hist::{Cfg, StepInfo, World};
+    let mut out = std::mem::take(out_ref);
+    let r = (|| -> Outcome {
     let cfg = Cfg { net: Net::Regtest, threshold: case.threshold, pool: vec![crate::chain::ScriptSpec::P2pkh(0), crate::chain::ScriptSpec::P2wpkh(1)], diff_mode: case.diff_mode, validated: true };
     let mut sc = SutConfig::new(cfg.net, cfg.threshold as u32);
     sc.api_access = if case.api { Flag::Enabled } else { Flag::Disabled };
@@ -257,12 +274,19 @@ fn run_direct(case: &Direct14) -> Outcome {
         }
         if w.model.anchor_height() != anchor_before {
             let sh = w.model.anchor_height();
+            let before = announced.len();
             announced.retain(|_, (h, _)| *h > sh);
+            if announced.len() < before {
+                out.class("announced_header_dropped_by_stable_height");
+            }
         }
         let max_ann = announced.values().map(|(h, _)| *h).max();
-        for k in [(i % 2) as u8, 2 + (i % 4) as u8] {
-            probe(&w, max_ann, api, sync, k, &addr, &mut out, &ctx, &mut st);
+        if probes {
+            for k in [(i % 2) as u8, 2 + (i % 4) as u8] {
+                probe(&w, max_ann, api, sync, k, &addr, &mut out, &ctx, &mut st);
+            }
         }
+        after_event(&mut w, &announced, i, &mut out);
         // classification: the best chain (by difficulty) is not the longest
         let best = w.model.best_chain();
         let longest = w.model.leaf_paths(w.model.anchor).iter().map(|p| p.len()).max().unwrap();
@@ -282,6 +306,27 @@ fn run_direct(case: &Direct14) -> Outcome {
         out.class_n("refused_by_sync_rule", st.refused_sync);
     }
     out
+    })();
+    *out_ref = r;
+}
+
+
+pub fn direct_strategy(n: usize) -> BoxedStrategy<Direct14> {
+    let evd = prop_oneof![
+            10 => crate::hist::op_strategy(1, true, true, false).prop_map(EvD::Op),
+            5 => (crate::hist::parent_strategy(), 1u8..5).prop_map(|(parent, n)| EvD::Announce { parent, n }),
+            3 => (any::<u16>(), any::<u8>()).prop_map(|(a, b)| EvD::Deliver(a, b)),
+            1 => (prop_oneof![3 => Just(None), 1 => any::<bool>().prop_map(Some)], prop_oneof![2 => Just(None), 1 => any::<bool>().prop_map(Some)]).prop_map(|(api, sync)| EvD::SetFlags { api, sync }),
+        ];
+    (
+            prop_oneof![2 => 1u8..=2, 4 => 3u8..=8],
+            crate::hist::diff_mode_strategy(),
+            prop_oneof![6 => Just(true), 1 => Just(false)],
+            prop_oneof![5 => Just(true), 1 => Just(false)],
+            prop::collection::vec(evd, 1..=n),
+        )
+        .prop_map(|(threshold, diff_mode, api, sync, evs)| Direct14 { threshold, diff_mode, api, sync, evs })
+        .boxed()
 }
 
 impl Property for C14 {
@@ -310,20 +355,7 @@ impl Property for C14 {
             prop::collection::vec(ev, 1..=n),
         )
             .prop_map(|(threshold, pool, api, sync, evs)| Case14::Hb(Case14Hb { threshold, pool, api, sync, evs }));
-        let evd = prop_oneof![
-            10 => crate::hist::op_strategy(1, true, true, false).prop_map(EvD::Op),
-            5 => (crate::hist::parent_strategy(), 1u8..5).prop_map(|(parent, n)| EvD::Announce { parent, n }),
-            3 => (any::<u16>(), any::<u8>()).prop_map(|(a, b)| EvD::Deliver(a, b)),
-            1 => (prop_oneof![3 => Just(None), 1 => any::<bool>().prop_map(Some)], prop_oneof![2 => Just(None), 1 => any::<bool>().prop_map(Some)]).prop_map(|(api, sync)| EvD::SetFlags { api, sync }),
-        ];
-        let direct = (
-            prop_oneof![2 => 1u8..=2, 4 => 3u8..=8],
-            crate::hist::diff_mode_strategy(),
-            prop_oneof![6 => Just(true), 1 => Just(false)],
-            prop_oneof![5 => Just(true), 1 => Just(false)],
-            prop::collection::vec(evd, 1..=n),
-        )
-            .prop_map(|(threshold, diff_mode, api, sync, evs)| Case14::Direct(Direct14 { threshold, diff_mode, api, sync, evs }));
+        let direct = direct_strategy(n).prop_map(Case14::Direct);
         prop_oneof![3 => hb, 2 => direct].boxed()
     }
     fn cases(&self, tier: Tier) -> u32 {
